@@ -511,6 +511,18 @@ func buildValSpecs() []valSpec {
 			}
 			return ""
 		}})
+	// a Stringer whose text is itself a double-quoted literal that carries raw control bytes
+	add(valSpec{Name: "stringer:self-quoted-with-controls", Kind: "stringer", Mk: func() any { return stringerV{"\"id \x1b[31mred\a\""} },
+		JSON: func(j any) string { return jsonStringIs(j, "\"id \x1b[31mred\a\"") },
+		Logfmt: func(p logfmt.Pair) string {
+			if !p.Quoted || p.Val != "\"id \x1b[31mred\a\"" {
+				return fmt.Sprintf("self-quoted Stringer text not preserved (or not quoted again): %q", p.Raw)
+			}
+			return ""
+		}})
+	// values encoding/json refuses to marshal (a NaN inside a map, a struct with a channel): whatever text they get, the record stays well-formed
+	add(valSpec{Name: "map-with-NaN", Kind: "fallback", Mk: func() any { return map[string]any{"ratio": math.NaN(), "n": 1} }, JSON: anyOK, Logfmt: anyPair})
+	add(valSpec{Name: "struct-with-chan", Kind: "fallback", Mk: func() any { return structWithChan{Name: "x", C: make(chan int)} }, JSON: anyOK, Logfmt: anyPair})
 	add(valSpec{Name: "typed-nil-pointer", Kind: "fallback", Mk: func() any { return (*structV)(nil) }, JSON: anyOK, Logfmt: anyPair})
 	add(valSpec{Name: "level", Kind: "level", Mk: func() any { return slog.WarnLevel },
 		JSON: func(j any) string { return jsonStringIs(j, slog.WarnLevel.String()) },
@@ -744,3 +756,8 @@ type tmError struct{ s string }
 
 func (v tmError) Error() string                { return v.s }
 func (v tmError) MarshalText() ([]byte, error) { return []byte(v.s), nil }
+
+type structWithChan struct {
+	Name string
+	C    chan int
+}
